@@ -7,7 +7,7 @@ import errno
 
 from psv import simk
 from psv.run import harness
-from psv.simk import psutil
+from psv.simk import _psposix, psutil
 
 UNLISTED = 99
 
@@ -183,23 +183,40 @@ def parents(ctx, n):
     ctx.prove([p.pid for p in got] == chain, "parents-chain", detail=f"{[p.pid for p in got]} vs {chain}")
 
 
-@harness("C05.recycled_caller", quick=[dict(which=w) for w in ("children", "children_r", "parent", "parents")])
-def recycled_caller(ctx, which):
-    """all of them raise NoSuchProcess when the caller's own PID has been recycled (detected by is_running())"""
+@harness("C05.recycled_caller", quick=[dict(which=w, waited=wd) for w in ("children", "children_r", "parent", "parents") for wd in (False, True)])
+def recycled_caller(ctx, which, waited=False):
+    """all of them raise NoSuchProcess when the caller's own PID has been recycled (detected by is_running()); waited: the original
+    process was seen to exit by a completed wait() on the same object before its PID was handed out again"""
     k, pids, pp, st = world(ctx, 3)
     caller = pids[1]
     new_start = ctx.int("new_start", 0, 10**6)
     ctx.assume(ctx.neg(ctx.eq(new_start, st[caller])))
-    with k.installed():
+
+    def waitpid(pid, flags):
+        raise ChildProcessError(errno.ECHILD, "No child processes")
+
+    k.waitpid_fn = waitpid
+    d = _psposix.wait_pid.__defaults__
+    assert len(d) == 7, d
+    with k.installed(extra=[(_psposix.wait_pid, "__defaults__", (d[0], d[1], waitpid, k.timer, d[4], k.sleep, d[6]))]):
         me = psutil.Process(caller)
+        if waited:
+            record, listing = k.files[f"/proc/{caller}/stat"], list(k.dirs["/proc"])
+            del k.files[f"/proc/{caller}/stat"]
+            k.dirs["/proc"] = [x for x in listing if x != str(caller)]
+            k.procs.discard(caller)
+            rc = me.wait(0)
+            ctx.prove(rc is None, "recycled-caller-NoSuchProcess", detail=f"wait(0) on a vanished non-child -> {rc!r}")
+            k.dirs["/proc"] = listing
+            k.procs.add(caller)
         k.files[f"/proc/{caller}/stat"] = simk.stat_record(k, caller, b"other", b"S", {4: pp[caller], 22: new_start})
-        alive = me.is_running()
+        alive = me.is_running() if ctx.flag("is_running_asked_first") else False
         try:
             {"children": lambda: me.children(), "children_r": lambda: me.children(recursive=True), "parent": me.parent, "parents": me.parents}[which]()
             exc = None
         except psutil.NoSuchProcess as e:
             exc = e
-    ctx.prove(alive is False and exc is not None and exc.pid == caller, "recycled-caller-NoSuchProcess", detail=f"{which}: is_running={alive} exc={exc!r}")
+    ctx.prove(alive is False and exc is not None and exc.pid == caller, "recycled-caller-NoSuchProcess", detail=f"{which}: waited={waited} is_running={alive} exc={exc!r}")
 
 
 @harness("C05.after_iter", quick=[dict(which=w) for w in ("parent", "parents", "children", "children_r")] + [dict(which=w, clock=True) for w in ("parent", "children")], thorough=[dict(which=w, n=n) for w in ("parent", "parents", "children", "children_r") for n in (3, 4)])
